@@ -240,7 +240,7 @@ def shquote(s):
 
 
 CHECK_RE = re.compile(
-    r"^Check (\d+): (\S+)\n\s+- Status: (\w+)\n\s+- Description: \"(.*?)\"\n(?:\s+- Location: (.*?)\n)?",
+    r"^Check (\d+): ([^\n]+)\n\s+- Status: (\w+)\n\s+- Description: \"(.*?)\"\n(?:\s+- Location: (.*?)\n)?",
     re.M | re.S)
 
 
